@@ -11,8 +11,8 @@ from hypothesis import strategies as st
 from . import cmakegen, core, refs
 
 DIRNAMES = ["a", "b", "a.b", "x-y", "mod", "mod.v2", "build", "sub", "t1", "deep", "cm.cmake", "n"]
-STEMS = ["m", "n1", "n2", "n3", "a", "b", "a.b", "x-y", "mod", "util", "zed", "lib.core"]
-EXTS = [".cmake", ".cmake", ".cmake", ".cmake", ".CMAKE", ".CMake", ".txt", ".cmake.in"]
+STEMS = ["m", "n1", "n2", "n3", "a", "b", "a.b", "x-y", "x", "mod", "util", "zed", "lib.core", "cm", "N1"]
+EXTS = [".cmake", ".cmake", ".cmake", ".cmake", ".cmake", ".CMAKE", ".CMake", ".txt", ".cmake.in", ""]
 PROJ_NAMES = ["proj", "src", "my-proj", "p.q", "cmake"]
 LOC_NAMES = ["w1", "site", "work", "ci", "checkout", "deep", "build", "mod"]
 
@@ -23,18 +23,24 @@ class Site:
 
 
 def draw_tree(draw, max_depth=3, max_files=3, max_subdirs=3, max_cmds=3, odd_names=False, with_mod=True,
-              budget=None):
+              budget=None, extra_dirnames=(), duplicates=False):
     """-> {relpath: text | None}.  File tags f0,f1,.. are assigned in creation order."""
     tree = {}
     counter = [0]
     left = [budget if budget is not None else 10]
 
+    made = []
+
     def content(name):
         if refs.is_cmake(name):
+            if duplicates and made and draw(st.integers(0, 3)) == 0:
+                return draw(st.sampled_from(made))       # a byte-identical copy of an earlier module
             tag = f"f{counter[0]}"
             counter[0] += 1
             desc = draw(cmakegen.desc_strategy(max_cmds=max_cmds, with_mod=with_mod))
-            return cmakegen.render(desc, tag).text
+            text = cmakegen.render(desc, tag).text
+            made.append(text)
+            return text
         if name == "cmake":
             return "set(zfilenamedcmake 1)\n"
         return f"not cmake: {name}\n"
@@ -50,7 +56,8 @@ def draw_tree(draw, max_depth=3, max_files=3, max_subdirs=3, max_cmds=3, odd_nam
         for nme in names:
             tree[posixpath.join(d, nme)] = content(nme)
         if depth < max_depth and left[0] > 0:
-            subs = draw(st.lists(st.sampled_from(DIRNAMES), unique=True, min_size=0, max_size=max_subdirs))
+            subs = draw(st.lists(st.sampled_from(DIRNAMES + list(extra_dirnames)), unique=True, min_size=0,
+                                 max_size=max_subdirs))
             for s in subs:
                 if s in names or left[0] <= 0:
                     continue
